@@ -193,6 +193,10 @@ type Exec struct {
 	refAx   map[string]bool
 	known   map[string]bool
 	freshOnly map[string]bool
+	termNames map[string]string // nameTerm memo
+	rawArgs   map[*ast.CallExpr]map[int]boundVar // slices passed as interface arguments, unboxed
+	// sample values of path events first recorded inside a loop body (shape for the loop-head havoc)
+	evSample map[string]Val
 	loopAlloc string
 	writes  map[string][]string
 	writeSeq int
@@ -271,7 +275,43 @@ func (e *Exec) fresh(prefix, sort string) string {
 	e.n++
 	name := fmt.Sprintf("%s!%d", smtName(prefix), e.n)
 	e.declare(name, sort)
+	// the nil map is empty in every state (nothing can be written to it)
+	if strings.HasPrefix(prefix, "H") {
+		if strings.HasSuffix(prefix, ".map#dom") && sort == arrSort(SArrB) {
+			e.decls = append(e.decls, fmt.Sprintf("(assert (= (select %s 0) ((as const (Array Int Bool)) false)))", name))
+		}
+		if strings.HasSuffix(prefix, ".map#len") {
+			e.decls = append(e.decls, fmt.Sprintf("(assert (= (select %s 0) 0))", name))
+		}
+	}
 	return name
+}
+
+// nameTerm gives a long ground term a short name (a constant with a defining equality), so that the terms built
+// on top of it stay small and usable as instantiation candidates. Syntactically identical terms share the name.
+func (e *Exec) nameTerm(hint, term, sort string) string {
+	if len(term) < 100 {
+		return term
+	}
+	for _, q := range e.qstack {
+		for _, n := range q.names {
+			if strings.Contains(term, n) {
+				return term
+			}
+		}
+	}
+	if n, ok := e.termNames[term]; ok {
+		if _, live := e.declared[n]; live {
+			return n
+		}
+	}
+	if e.termNames == nil {
+		e.termNames = map[string]string{}
+	}
+	n := e.fresh(hint, sort)
+	e.termNames[term] = n
+	e.addFact(mkEq(n, term))
+	return n
 }
 
 func (e *Exec) addFact(f string) {
